@@ -1,11 +1,25 @@
 """C15 — Lexing is whitespace-insensitive, quote-faithful and normalises Python code.
 
-Correspondence stream `c01` (op `tokenize`): token (text, kind, start, stop) lists of the real
-`tokenize(s)` against `Model.tokenize`, on re-spaced grammar formulas, arbitrary quoted column names,
-Python fragments printed with random formatting, and random strings.
-Oracle (impl only): re-spacing around operators/brackets does not change `Formula(s)`; a
-backtick-quoted name / brace / call fragment is one token with the text verbatim; reformatted
-fragments denote the same factor; spans delimit the text, are ordered and do not overlap.
+Correspondence stream `c15` (engine `Engines/C15.lean`), one request per case:
+  op `lex`     the tokens the real `tokenize(s)` yields (also those yielded before it raises), each with
+               (text, kind, start, stop), `get_source_context()` plain and colorized, `to_factor()`, `to_terms()`,
+               `required_variables` (non-Python tokens); and for every Python token the alias pass
+               (`sanitize_variable_names`: sanitised text, alias table) and the result of
+               `sanitize_python_code` — against `Model.tokenizeStream`, `Model.TokM.*`, `Model.PyAlias.*`;
+               `format_expr` (CPython) is the only thing handed to the model as data.
+  op `alias`   `UNQUOTED_BACKTICK_MATCHER.split`, `sanitize_variable_names` with either template and an
+               environment (alias table, additions to env), `sanitize_python_code` on arbitrary fragments,
+               malformed ones included.
+  ops `split`, `tokcmp`, `tokinfo`   `Token.split/__eq__/__lt__/__hash__/source_loc/to_factor/to_terms/
+               get_source_context/required_variables` on constructed tokens.
+Oracle (impl only): re-spacing around operators/brackets does not change `Formula(s)`; a backtick-quoted name /
+brace / call fragment is one token with the text verbatim (several fragments: one token each); reformatted
+fragments (keywords touching back-quoted names, `%` inside fragments, either quote style) denote the same
+factor, which is the same Python AST over the same back-quoted names; spans delimit the text, are ordered and do
+not overlap; source contexts (of tokens and of error messages) are the source with the span marked; the column
+named by a quoted name can be evaluated (model_matrix on a frame holding it) and is the required variable;
+aliases are ASCII identifiers, not keywords, not words of the fragment, one per name, and restoring them in the
+formatted code gives the quoted names back.
 """
 from __future__ import annotations
 
@@ -16,19 +30,36 @@ from harness import parser_common as pc
 from harness.props import c01
 
 PROPERTY = "C15"
-ENGINE = "c01"
+ENGINE = "c15"
 REQUIRED_THEOREMS = ["backtick_verbatim", "whitespace_noop", "whitespace_flushes", "spans_ordered", "ws_insensitive", "positions_irrelevant",
                      "span_delimits_text", "tokens_have_kinds", "quoted_verbatim", "brace_verbatim",
-                     "call_verbatim", "call_chain_verbatim", "dotted_call_verbatim", "call_at_end", "call_then", "token_text_exact"]
+                     "call_verbatim", "call_chain_verbatim", "dotted_call_verbatim", "call_at_end", "call_then", "token_text_exact",
+                     "ws_insensitive_formula", "formula_ignores_spans", "respacing_keeps_formula", "parser_split_is_token_split", "alias_scan_partition", "alias_is_identifier",
+                     "alias_loop_terminates", "alias_table_faithful", "alias_unique_per_name", "restore_roundtrip", "normal_form_of_formatted",
+                     "kind_to_factor", "leaf_factor_agrees", "source_context_marks_span", "split_keeps_text_and_span"]
 TRUSTED = list(c01.TRUSTED) + [
-    "that two formattings of one Python fragment have the same ast.unparse normal form is CPython's (exercised, not proved)"
+    "CPython's ast.parse/ast.unparse (format_expr): that two formattings of one Python fragment have the same unparse, and that "
+    "unparse leaves identifiers whole, is exercised (oracle: same AST over the same back-quoted names), not proved; it enters the "
+    "model as per-case data (the formatted text of the sanitised fragment)",
+    "CPython's str.isidentifier / unicodedata.normalize (per-name data for the `{}` template) and str.isspace (per-case data); "
+    "keyword.kwlist, the alias template, Token.to_factor's kind table and the markers of get_source_context are read from the "
+    "live package/interpreter by harness/translate.py (Gen/TokenTable.lean)",
 ]
 ASSUMPTIONS = []
 RULE = (
     "grammar-derived formulas rendered twice with independent random whitespace at token boundaries; column names drawn from arbitrary "
-    "printable/Unicode characters except the backtick (operator characters, quotes, brackets, backslashes, leading digits, spaces); Python call/brace "
-    "fragments from a small expression grammar printed with random spacing, redundant parentheses, either quote style and string literals "
-    "containing brackets, braces and quotes; random strings over an adversarial alphabet. non-trivial = has a quote, bracket or operator; distinct by JSON"
+    "printable/Unicode characters except the backtick (operator characters, quotes, brackets, backslashes, leading digits, spaces), plus "
+    "Python keywords and names that are not NFKC-stable, each also evaluated with model_matrix on a frame holding the column; Python "
+    "call/brace fragments from an expression grammar (calls, subscripts, lists, dicts, binary operators incl. %, keyword operators "
+    "and/or/in/is/not/if-else that may touch back-quoted names, brackets and quotes without whitespace) printed twice with random spacing, "
+    "redundant parentheses, either quote style, string literals containing brackets, braces, quotes, backslashes (also trailing) and "
+    "backticks, back-quoted names containing quotes, alias look-alike identifiers/strings; one or two fragments per formula joined by "
+    "+ : * / ~ %in%; a fixed table of 35 fragment formulas (keyword touching a quoted name; % inside fragments, with %in%) on every "
+    "seed; alias-pass cases: fragments as above, quote-interplay calls, random strings over quotes/backticks/backslashes, both templates, "
+    "environments that collide with the aliases (forces the numeric suffix), 19 fixed rows; Token method cases: split with literal "
+    "patterns and both flags on random operator runs, comparisons, to_factor/get_source_context on constructed tokens of every kind "
+    "(none included) with and without source; random strings over an adversarial alphabet. non-trivial = has a quote, bracket or "
+    "operator (alias cases: a back-quote); distinct by JSON"
 )
 
 NAME_CHARS = "abcxyz019_ .+-*/:^~|(){}[]'\"%$#@!,;<>=&\\éß漢١\t"
@@ -42,14 +73,28 @@ def rand_name(rng):
 # ---- small Python expression grammar, printed with random formatting
 
 
+KW2 = ["and", "or", "in", "not in", "is", "is not"]
+QUOTES = ["'", '"']
+TRIPLE_CONTENTS = ["x", "a b", 'a"b', "it's", 'say "hi" now', "don't 'x'", "(", "`q`"]
+
+
 def gen_pyexpr(rng, depth):
     r = rng.random()
     if depth <= 0 or r < 0.3:
-        return rng.choice([("n", "a"), ("n", "x1"), ("n", "b"), ("c", 1), ("c", 2.5), ("s", rng.choice(["q", "a)b", "(", "]}", "it's", '"', "{", "a b", "", "it's `50%`", "`x`", 'say "`q`" now', "`", "a `b", "'`a`'"]))])
+        if rng.random() < 0.03:  # a triple-quoted string literal, possibly with single quote characters inside
+            return ("t", rng.choice(TRIPLE_CONTENTS), rng.choice(QUOTES))
+        return rng.choice([("n", "a"), ("n", "x1"), ("n", "b"), ("c", 1), ("c", 2.5), ("s", rng.choice(["q", "a)b", "(", "]}", "it's", '"', "{", "a b", "", "it's `50%`", "`x`", 'say "`q`" now', "`", "a `b", "'`a`'", "%", "%d%%", "a % b"]))])
     if r < 0.5:
         return ("call", rng.choice(["f", "np.log", "g"]), [gen_pyexpr(rng, depth - 1) for _ in range(rng.randint(0, 3))])
-    if r < 0.7:
-        return ("bin", rng.choice(["+", "*", "-", "/", "**"]), gen_pyexpr(rng, depth - 1), gen_pyexpr(rng, depth - 1))
+    if r < 0.66:
+        return ("bin", rng.choice(["+", "*", "-", "/", "**", "%", "%"]), gen_pyexpr(rng, depth - 1), gen_pyexpr(rng, depth - 1))
+    if r < 0.72:  # keyword operators: they may touch a back-quoted name, a bracket or a string quote without whitespace
+        k = rng.random()
+        if k < 0.6:
+            return ("kw2", rng.choice(KW2), gen_pyexpr(rng, depth - 1), gen_pyexpr(rng, depth - 1))
+        if k < 0.75:
+            return ("not", gen_pyexpr(rng, depth - 1))
+        return ("ifx", gen_pyexpr(rng, depth - 1), gen_pyexpr(rng, depth - 1), gen_pyexpr(rng, depth - 1))
     if r < 0.8:
         return ("sub", gen_pyexpr(rng, depth - 1), gen_pyexpr(rng, depth - 1))
     if r < 0.9:
@@ -65,40 +110,281 @@ BT_CHOICES = [
     {"a": "a"}, {"a": "o"}, {"a": "g"}, {"a": "f"}, {"a": "n"}, {"b": "x"}, {"a": "l", "b": "p"},
     {"a": "a b", "b": "a|b"}, {"a": "a-b", "b": "a-"}, {"a": "a-", "b": "a-b"}, {"a": "a_", "b": "a-"},
     {"a": "a b", "b": "a_b"}, {"a": "a-1", "b": "a-"}, {"a": "x1", "b": "x"}, {"a": "log", "b": "np"},
+    # names with characters that Python's parser rewrites in identifiers (NFKC: \ufb01 -> fi, \u00b5 -> \u03bc, \u00b2 -> 2,
+    # e + combining acute -> \u00e9), alone (a valid identifier that is not NFKC-stable) and inside non-identifiers
+    {"a": "\ufb01 x"}, {"a": "\ufb01"}, {"a": "\u00b5"}, {"a": "x\u00b2"}, {"a": "e\u0301"}, {"a": "\u017f-t"}, {"a": "\u2167", "b": "VIII"},
+    {"a": "\ufb01 x", "b": "fi x"}, {"a": "\u00aa b", "b": "a b"}, {"a": "\u0661 0"}, {"a": "\u00e9 \u6f22"},
+    # quote characters inside the quoted name, with string literals and further names around
+    {"a": "it's", "b": "say \"hi\""}, {"a": "'"}, {"a": "\""}, {"a": "a'b", "b": "c'd"}, {"a": "'x'"}, {"a": "\"'"},
 ]
 
+# string-literal contents and quoted names for the quote-interplay stream: backslashes (also trailing), both quote
+# characters, backticks inside strings, quote characters inside names
+Q_STRS = ["a\\", "\\", "\\\\", "a\\b", "\\'", "\\\"", "x", "", "it's", "`", "`n`", "a `b", "\"", "'", "d\\\"e", "\\`", "(", ")]"]
+Q_NAMES = ["b c", "it's", "a\"b", "x+y", "'", "\"", "a'b'c", "n", "''", "p q", "\ufb01 x", "don't", "\"q\"", "a\\'b", "a\\\\"]
 
-def show_py(e, rng):
+
+def gen_quote_args(rng):
+    """a call whose arguments interleave string literals (escaped backslashes and quotes inside) and back-quoted
+    names (quote characters inside): the class of inputs on which the alias pass has to tell the two apart"""
+    n = rng.randint(2, 5)
+    args = []
+    for _ in range(n):
+        r = rng.random()
+        if r < 0.45:
+            args.append(("s", rng.choice(Q_STRS)))
+        elif r < 0.9:
+            args.append(("q", rng.choice(Q_NAMES)))
+        else:
+            args.append(rng.choice([("n", "x1"), ("c", 1), ("call", "g", [("q", rng.choice(Q_NAMES))])]))
+    return ("call", rng.choice(["f", "np.log", "g"]), args)
+
+
+def _kw_join(left, kw, right, rng):
+    """`left kw right` where the keyword may touch its neighbour when the character at the junction cannot be
+    part of an identifier or number (a backtick, a bracket, a string quote)"""
+    w = lambda: rng.choice([" ", " ", "  "])
+    ls = rng.choice(["", "", " "]) if left and left[-1] in "`)]}'\"" else w()
+    rs = rng.choice(["", "", " "]) if right and right[0] in "`([{'\"" else w()
+    return left + ls + kw + rs + right
+
+
+def show_py(e, rng, top=False):
+    """one spelling of the expression; `top`: the expression is a whole fragment / call argument, so the redundant
+    parentheses around a binary operation may be left out"""
     w = lambda: rng.choice(["", "", " ", "  "])
     k = e[0]
+    paren = (lambda t: t) if top and rng.random() < 0.6 else (lambda t: "(" + w() + t + w() + ")")
     if k == "n":
         # optionally one name of the fragment is a backtick-quoted (non-identifier) column name
         return ("`" + BT_NAME[e[1]] + "`") if e[1] in BT_NAME else e[1]
+    if k == "q":
+        return "`" + e[1] + "`"
     if k == "c":
         return repr(e[1])
+    if k == "t":
+        q = e[2] if not e[1].endswith(e[2]) else [x for x in QUOTES if x != e[2]][0]
+        return q * 3 + e[1] + q * 3
     if k == "s":
         s = e[1]
         q = rng.choice("'\"")  # either quote style; the style's own quote character is backslash-escaped
         return q + s.replace("\\", "\\\\").replace(q, "\\" + q) + q
     if k == "call":
-        args = (w() + "," + w()).join(show_py(a, rng) for a in e[2])
+        args = (w() + "," + w()).join(show_py(a, rng, top=True) for a in e[2])
         return e[1] + "(" + w() + args + w() + ")"
     if k == "bin":
-        inner = show_py(e[2], rng) + w() + e[1] + w() + show_py(e[3], rng)
-        return "(" + w() + inner + w() + ")"
+        return paren(show_py(e[2], rng) + w() + e[1] + w() + show_py(e[3], rng))
+    if k == "kw2":
+        return paren(_kw_join(show_py(e[2], rng), e[1], show_py(e[3], rng), rng))
+    if k == "not":
+        return paren(_kw_join("", "not", show_py(e[1], rng), rng))
+    if k == "ifx":
+        t = _kw_join(show_py(e[1], rng), "if", show_py(e[2], rng), rng)
+        return paren(_kw_join(t, "else", show_py(e[3], rng), rng))
     if k == "sub":
         base = show_py(e[1], rng)
-        if e[1][0] not in ("n", "call", "sub", "list", "dict"):
+        if e[1][0] not in ("n", "q", "call", "sub", "list", "dict"):
             base = "(" + base + ")"
-        return base + "[" + w() + show_py(e[2], rng) + w() + "]"
+        return base + "[" + w() + show_py(e[2], rng, top=True) + w() + "]"
     if k == "list":
-        return "[" + (w() + "," + w()).join(show_py(a, rng) for a in e[1]) + "]"
+        return "[" + (w() + "," + w()).join(show_py(a, rng, top=True) for a in e[1]) + "]"
     if k == "dict":
         return "{" + (w() + "," + w()).join(show_py(a, rng) + w() + ":" + w() + show_py(b, rng) for a, b in e[1]) + "}"
     raise ValueError(k)
 
 
+def gen_lookalike(rng):
+    """identifiers and string literals of the fragment that look like the aliases its back-quoted names get"""
+    pool = [("q", "a b"), ("q", "a b"), ("q", "a|b"), ("q", "_formulaic_a_b c"), ("n", "_formulaic_a_b"), ("n", "_formulaic_a_b_1"),
+            ("n", "_formulaic_a_bc"), ("n", "x_formulaic_a_b"), ("s", "_formulaic_a_b"), ("s", "x _formulaic_a_b_1 y"), ("n", "a_b"),
+            ("q", "a_b"), ("n", "x1"), ("q", "_formulaic_a_b"), ("q", "class"), ("q", "None")]
+    return ("call", rng.choice(["f", "g"]), [rng.choice(pool) for _ in range(rng.randint(2, 5))])
+
+
+def gen_touching(rng):
+    """keyword operators over back-quoted names and atoms (the class `{`a b`and`c d`}`)"""
+    atom = lambda: rng.choice([("q", rng.choice(["a b", "c d", "x", "y", "it's", "a", "2nd", "if", "p)q"])), ("q", rng.choice(["a b", "c d"])), ("n", "x1"), ("c", 1), ("s", "k")])
+    r = rng.random()
+    if r < 0.45:
+        e = ("kw2", rng.choice(KW2), atom(), atom())
+    elif r < 0.6:
+        e = ("not", atom())
+    elif r < 0.85:
+        e = ("ifx", atom(), atom(), atom())
+    else:
+        e = ("kw2", rng.choice(["and", "or"]), ("not", atom()), ("kw2", rng.choice(KW2), atom(), atom()))
+    return e
+
+
+def gen_percent(rng):
+    """Python's % operator outside string literals, next to brackets and names"""
+    atom = lambda: rng.choice([("n", "a"), ("n", "b"), ("n", "x1"), ("c", 2), ("c", 3), ("sub", ("n", "a"), ("c", 0)), ("call", "g", [("n", "b")]), ("s", "%d"), ("q", "a b")])
+    r = rng.random()
+    if r < 0.4:
+        return ("bin", "%", atom(), atom())
+    if r < 0.6:
+        return ("bin", "%", ("bin", "%", atom(), atom()), atom())
+    if r < 0.8:
+        return ("call", rng.choice(["f", "g"]), [("bin", "%", atom(), atom()) for _ in range(rng.randint(1, 3))])
+    return ("bin", rng.choice(["+", "==", "*"]), ("bin", "%", atom(), atom()), atom())
+
+
+# fixed inputs run on every seed and tier: (formula, the same formula conventionally spaced, python fragments of the first
+# in order, each with its form).  (a) a back-quoted name touching a keyword/identifier; (b) Python's % inside fragments.
+FIXED_PY = [
+    ("{`a b`and`c d`}", "{`a b` and `c d`}", [("`a b`and`c d`", "brace")]),
+    ("{not`a b`}", "{not `a b`}", [("not`a b`", "brace")]),
+    ("{1 if`a b`else 0}", "{1 if `a b` else 0}", [("1 if`a b`else 0", "brace")]),
+    ("f(`a`if`b`else`c`)", "f(`a` if `b` else `c`)", [("f(`a`if`b`else`c`)", "call")]),
+    ("{`x`in`y`}", "{`x` in `y`}", [("`x`in`y`", "brace")]),
+    ("{`a b`or`c d`}", "{`a b` or `c d`}", [("`a b`or`c d`", "brace")]),
+    ("f(`a b`is not`c d`)", "f(`a b` is not `c d`)", [("f(`a b`is not`c d`)", "call")]),
+    ("f(`a b`not in`c d`, 1)", "f(`a b` not in `c d`, 1)", [("f(`a b`not in`c d`, 1)", "call")]),
+    ("{`a b`if`c d`else`e f`}", "{`a b` if `c d` else `e f`}", [("`a b`if`c d`else`e f`", "brace")]),
+    ("f(x if`a b`else y)", "f(x if `a b` else y)", [("f(x if`a b`else y)", "call")]),
+    ("{[`a b`for z in`c d`]}", "{[`a b` for z in `c d`]}", [("[`a b`for z in`c d`]", "brace")]),
+    ("g(`a b`and not`c d`)", "g(`a b` and not `c d`)", [("g(`a b`and not`c d`)", "call")]),
+    ("{lambda q:`a b`}", "{lambda q: `a b`}", [("lambda q:`a b`", "brace")]),
+    ("y ~ {`a b`and`c d`} + f(not`e`)", "y~{`a b` and `c d`}+f(not `e`)", [("`a b`and`c d`", "brace"), ("f(not`e`)", "call")]),
+    ("a + I(x % 2)", "a+I(x%2)", [("I(x % 2)", "call")]),
+    ("{(x % 2) == 0} + b", "{(x%2)==0}+b", [("(x % 2) == 0", "brace")]),
+    ("I(x % 2) + I(z % 3)", "I(x%2)+I(z%3)", [("I(x % 2)", "call"), ("I(z % 3)", "call")]),
+    ("f(a % 2, b % 3)", "f(a%2,b%3)", [("f(a % 2, b % 3)", "call")]),
+    ("f((a) % (b))", "f((a)%(b))", [("f((a) % (b))", "call")]),
+    ("f(x[0] % y[1])", "f(x[0]%y[1])", [("f(x[0] % y[1])", "call")]),
+    ("{[1, 2][0] % 2}", "{[1,2][0]%2}", [("[1, 2][0] % 2", "brace")]),
+    ("I(x % 2) %in% I(z % 3)", "I(x%2)%in%I(z%3)", [("I(x % 2)", "call"), ("I(z % 3)", "call")]),
+    ("f(a %2)%in%g(b% 3)", "f(a % 2) %in% g(b % 3)", [("f(a %2)", "call"), ("g(b% 3)", "call")]),
+    ("{x % 2}", "{x%2}", [("x % 2", "brace")]),
+    ("{'%d' % x}", "{'%d'%x}", [("'%d' % x", "brace")]),
+    ("f('%s %s' % (a, b))", "f('%s %s'%(a,b))", [("f('%s %s' % (a, b))", "call")]),
+    ("{a %b% c}", "{a % b % c}", [("a %b% c", "brace")]),
+    ("f(a %b% c)", "f(a % b % c)", [("f(a %b% c)", "call")]),
+    ("np.log(x % 2 + 1) : {y % 3}", "np.log(x%2+1):{y%3}", [("np.log(x % 2 + 1)", "call"), ("y % 3", "brace")]),
+    ("a %in% f(b % 2)", "a%in%f(b%2)", [("f(b % 2)", "call")]),
+    ("{x % 2} %in% {y % 3}", "{x%2}%in%{y%3}", [("x % 2", "brace"), ("y % 3", "brace")]),
+    ("f(x)[a % 2] + g(b) % 2", None, None),  # `%` after a closed call is at top level: an unterminated %-quote
+    ("(I(x % 2))", "( I(x%2) )", [("I(x % 2)", "call")]),
+    ("f(`a b` % 2, `c%d` % 3)", "f(`a b`%2,`c%d`%3)", [("f(`a b` % 2, `c%d` % 3)", "call")]),
+    ("{`100%` % 2}", "{`100%`%2}", [("`100%` % 2", "brace")]),
+    ('f(' + '"' * 3 + 'a b' + '"' * 3 + ', x)', 'f( ' + '"' * 3 + 'a b' + '"' * 3 + ',x )', [('f(' + '"' * 3 + 'a b' + '"' * 3 + ', x)', "call")]),
+    # known finding C15-F4: an odd number of quote characters inside a triple-quoted literal
+    ('f(' + '"' * 3 + 'a"b' + '"' * 3 + ')', 'f( ' + '"' * 3 + 'a"b' + '"' * 3 + ' )', [('f(' + '"' * 3 + 'a"b' + '"' * 3 + ')', "call")]),
+]
+
+
+def wrap_frag(text, form):
+    return "{" + text + "}" if form == "brace" else text
+
+
+def gen_fragment(rng):
+    """one Python fragment in two spellings: (frag text, form), (frag2 text, form)"""
+    e = gen_pyexpr(rng, 3)
+    BT_NAME.clear()
+    r = rng.random()
+    if r < 0.2:
+        e = gen_quote_args(rng)
+    elif r < 0.32:
+        e = gen_touching(rng)
+    elif r < 0.44:
+        e = gen_percent(rng)
+    elif r < 0.52:
+        e = gen_lookalike(rng)
+    elif r < 0.72:
+        BT_NAME.update(rng.choice(BT_CHOICES))
+        if rng.random() < 0.5:  # make sure the quoted names occur, next to look-alike identifiers
+            e = ("call", rng.choice(["g", "np.log", "f"]), [("n", "a"), e, ("n", "b"), ("n", "a")])
+    if e[0] in ("c", "s", "t"):  # a bare constant is not a fragment of its own (`{1}` is the intercept)
+        e = ("call", "g", [e])
+    a, b = show_py(e, rng, top=True), show_py(e, rng, top=True)
+    BT_NAME.clear()
+    form = rng.choice(["call", "brace"])
+    if form == "call":
+        fn = rng.choice(["f", "f", "I", "np.log"])
+        return (fn + "(" + a + ")", form), (fn + "( " + b + " )", form)
+    return (a, form), (" " + b + " ", form)
+
+
+ALIAS_ALPHABET = "ab_1 `'\"\\(),+.x\ufb01\u00e9\t"
+FIXED_ALIAS = [
+    # (expr, prefix, env keys): collisions with env force the numeric suffix; unterminated quotes and back-quotes
+    ("f(`a b`, `a|b`)", "", ["a_b", "a_b_1", "a b"]),
+    ("f(`a b`, `a|b`, `a b`)", "", ["a b", "a|b"]),
+    ("f(`a b`, `a|b`)", "_formulaic_", []),
+    ("`a b` + a_b", "", ["a_b"]),
+    ("`x` + `class` + `\ufb01`", "", ["x", "class"]),
+    ("f(`a b", "_formulaic_", []),
+    ("f('a b, `c d`)", "_formulaic_", []),
+    ("f(\"a\\\\\", `b c`, \"d\")", "_formulaic_", []),
+    ("f(`it's`, 'x', `it's`)", "_formulaic_", []),
+    ("f(\\\"`a`\\\")", "_formulaic_", []),
+    ("  `a b`  ", "_formulaic_", []),
+    ("``+`1`+`1a`", "", ["_", "_1"]),
+    ("`a\\`b` + 'c\\'`d`'", "_formulaic_", []),
+    ("f(`_formulaic_a_b c`, `a b`)", "_formulaic_", []),
+    ("f(`a b`, x1, `a_b`, `a b`)", "", []),
+    ("f(`a_b`, `a b`, `a_b`)", "", []),
+    ("f(`a b`, a_b, \"a_b_1\")", "", []),
+    ("f(`a b`, _formulaic_a_b, '_formulaic_a_b_1')", "_formulaic_", []),
+    ("f(`class`, `None`, `x`)", "", ["class", "x"]),
+]
+
+
+def gen_alias_case(rng):
+    r = rng.random()
+    if r < 0.45:
+        (a, form), _ = gen_fragment(rng)
+        expr = a
+    elif r < 0.6:
+        expr = show_py(gen_quote_args(rng), rng, top=True)
+    else:
+        expr = "".join(rng.choice(ALIAS_ALPHABET) for _ in range(rng.randint(1, 16)))
+    pre = rng.choice(["", "_formulaic_", "_formulaic_"])
+    env = []
+    if rng.random() < 0.5:  # keys that collide with the aliases the names of this fragment would get
+        import re as _re
+
+        for nm in _re.findall(r"`([^`]*)`", expr):
+            base = "".join(ch if (ch.isascii() and (ch.isalnum() or ch == "_")) else "_" for ch in nm)
+            if not base or base[0].isdigit():
+                base = "_" + base
+            for cand in (nm, pre + base, pre + base + "_1", pre + base + "_2"):
+                if rng.random() < 0.4:
+                    env.append(cand)
+    return dict(kind="alias", expr=expr, pre=pre, env=sorted(set(env)))
+
+
+def gen_tokmeth_case(rng):
+    kinds = ["operator", "name", "python", "value", "context", "none"]
+    text = lambda: "".join(rng.choice("~+-|ab~|") for _ in range(rng.randint(0, 7)))
+    span = lambda: rng.choice([[None, None], [0, 3], [2, 2], [5, 7]])
+    if rng.random() < 0.7:
+        a, b = span()
+        return dict(kind="tokmeth", op="split", tok=[text(), rng.choice(kinds), a, b], src=rng.choice([None, "a ~+ b|c"]),
+                    pat=rng.choice(["~", "|", "+-", "ab", "~~", "a"]), after=rng.random() < 0.6, before=rng.random() < 0.4,
+                    compiled=rng.random() < 0.5)
+    if rng.random() < 0.4:
+        a, b = span()
+        txt = rng.choice([text(), "f(x", "g(`a b`) +", "x 1", "a.b", "", "np.log(a)"])
+        return dict(kind="tokmeth", op="tokinfo", tok=[txt, rng.choice(kinds), a, b], src=rng.choice([None, "", "a ~+ b|c", "f(x) + y z"]))
+    (a1, b1), (a2, b2) = span(), span()
+    t1 = text()
+    return dict(kind="tokmeth", op="tokcmp", a=[t1, rng.choice(kinds), a1, b1],
+                b=[t1 if rng.random() < 0.5 else text(), rng.choice(kinds), a2, b2])
+
+
 def cases(rng, tier):
+    for expr, pre, env in FIXED_ALIAS:
+        yield dict(kind="alias", expr=expr, pre=pre, env=env)
+    for _ in range({"quick": 150, "thorough": 4000, "search": 150}[tier]):
+        yield gen_alias_case(rng)
+    for _ in range({"quick": 60, "thorough": 1000, "search": 60}[tier]):
+        yield gen_tokmeth_case(rng)
+    for s1, s2, frags in FIXED_PY:
+        if frags is None:
+            yield dict(kind="random", s=s1)
+        else:
+            yield dict(kind="py", form="fixed", frags=[list(f) for f in frags], s=s1, s2=s2)
     n = {"quick": 1200, "thorough": 30000, "search": 1200}[tier]
     for _ in range(n):
         r = rng.random()
@@ -112,58 +398,252 @@ def cases(rng, tier):
                 pass
             yield dict(kind="respace", s=pc.render_formula(f, rng), s2=pc.render_formula(f, rng))
         elif r < 0.55:
-            name = rand_name(rng)
+            name = rng.choice(["class", "if", "None", "lambda", "\ufb01", "x\u00b2", "e\u0301", "\u00b5 g"]) if rng.random() < 0.08 else rand_name(rng)
             tmpl = rng.choice(["`{}`", "a + `{}`", "`{}`:b + c", "y ~ `{}` * x", "(`{}`)", "f(`{}`)", "{{`{}` + 1}}"])
             yield dict(kind="name", name=name, tmpl=tmpl, s=tmpl.format(name))
         elif r < 0.85:
-            e = gen_pyexpr(rng, 3)
-            BT_NAME.clear()
-            if rng.random() < 0.5:
-                BT_NAME.update(rng.choice(BT_CHOICES))
-                if rng.random() < 0.5:  # make sure the quoted names occur, next to look-alike identifiers
-                    e = ("call", rng.choice(["g", "np.log", "f"]), [("n", "a"), e, ("n", "b"), ("n", "a")])
-            a, b = show_py(e, rng), show_py(e, rng)
-            BT_NAME.clear()
-            form = rng.choice(["call", "brace"])
-            if form == "call":
-                a, b = "f(" + a + ")", "f( " + b + " )"
-                yield dict(kind="py", form=form, frag=a, frag2=b, s="x + " + a + " : y", s2="x+" + b + ":y")
-            else:
-                yield dict(kind="py", form=form, frag=a, frag2=b, s="x + {" + a + "} : y", s2="x+{ " + b + " }:y")
+            (a, form), (b, _) = gen_fragment(rng)
+            if rng.random() < 0.75:
+                yield dict(kind="py", form=form, frags=[[a, form]],
+                           s="x + " + wrap_frag(a, form) + " : y", s2="x+" + wrap_frag(b, form) + ":y")
+            else:  # two fragments joined by a top-level operator (the %in% operator included)
+                (a2, form2), (b2, _) = gen_fragment(rng)
+                op = rng.choice(["+", ":", "*", "%in%", "%in%", "/", "~"])
+                sp = lambda: rng.choice(["", " ", "  "])
+                yield dict(kind="py", form=form + "+" + form2, frags=[[a, form], [a2, form2]],
+                           s=wrap_frag(a, form) + sp() + op + sp() + wrap_frag(a2, form2),
+                           s2=wrap_frag(b, form) + sp() + op + sp() + wrap_frag(b2, form2))
         else:
             m = rng.randint(1, 14)
             yield dict(kind="random", s="".join(rng.choice(c01.ALPHABET + "\\é\t") for _ in range(m)))
 
 
 def describe(c):
+    if c["kind"] == "alias":
+        return "alias/" + (c["pre"] or "plain") + ("/env" if c["env"] else "")
+    if c["kind"] == "tokmeth":
+        return "tokmeth/" + c["op"]
     return c["kind"] + ("/" + c["form"] if "form" in c else "")
 
 
 def nontrivial(c):
+    if c["kind"] == "alias":
+        return "`" in c["expr"]
+    if c["kind"] == "tokmeth":
+        return True
     return any(ch in c["s"] for ch in "+-*:/^~|()[]{}`%'\"")
 
 
+def _cls(e):
+    return pc.exc_class(e)
+
+
+def _tok4(t):
+    return [t.token, t.kind.value if t.kind else "none", t.source_start, t.source_end]
+
+
+def _space_chars(*strings):
+    return "".join(sorted({" "} | {ch for st in strings for ch in st if ch.isspace()}))
+
+
+def impl_lex(s):
+    """everything the lexer layer says about one string: the tokens the generator yields (also before it raises),
+    each with its source context, factor and terms; the alias pass and the normal form of every Python token"""
+    from formulaic.parser.algos.sanitize_tokens import sanitize_python_code
+    from formulaic.parser.algos.tokenize import tokenize
+    from formulaic.parser.types import Token
+    from formulaic.utils.code import format_expr, sanitize_variable_names
+
+    toks, err, err_msg = [], None, None
+    try:
+        for t in tokenize(s):
+            toks.append(t)
+    except Exception as e:
+        err, err_msg = _cls(e), str(e)
+    full, py, fmt, pyrv = [], [], [], []
+    for t in toks:
+        try:
+            f = t.to_factor()
+            fac = [f.expr, f.eval_method.value]
+        except Exception as e:
+            fac = {"error": type(e).__name__}
+        try:
+            terms = [pc.canon_term(x) for x in t.to_terms()]
+        except Exception as e:
+            terms = {"error": type(e).__name__}
+        rv = None if t.kind is Token.Kind.PYTHON else sorted(str(v) for v in t.required_variables)
+        pyrv.append(sorted(str(v) for v in t.required_variables) if t.kind is Token.Kind.PYTHON else None)
+        full.append(dict(tok=_tok4(t), ctx=t.get_source_context(), cctx=t.get_source_context(colorize=True), factor=fac, terms=terms, rv=rv))
+        if t.kind is Token.Kind.PYTHON:
+            aliases = {}
+            s1 = sanitize_variable_names(t.token, {}, aliases, template="_formulaic_{}")
+            try:
+                fmt.append(dict(k=s1, ok=format_expr(s1)))
+            except Exception as e:
+                fmt.append(dict(k=s1, err=type(e).__name__))
+            try:
+                fin = {"ok": sanitize_python_code(t.token)}
+            except Exception as e:
+                fin = {"error": _cls(e)}
+            py.append(dict(s1=s1, aliases=[[k, v] for k, v in aliases.items()], final=fin))
+    lex = dict(tokens=full, error=err, py=py)
+    tok = {"error": err} if err else {"tokens": [x["tok"] for x in full]}
+    return dict(lex=lex, tok=tok, fmt=fmt, err_msg=err_msg, pyrv=pyrv)
+
+
+def impl_alias(c):
+    from formulaic.utils.code import UNQUOTED_BACKTICK_MATCHER, format_expr, sanitize_variable_names
+
+    env = {k: i for i, k in enumerate(c["env"])}
+    aliases = {}
+    tmpl = c["pre"] + "{}"
+    s1 = sanitize_variable_names(c["expr"], env, aliases, template=tmpl)
+    added = [[k, v] for k, v in aliases.items() if k in env and k not in c["env"]]
+    out = dict(parts=UNQUOTED_BACKTICK_MATCHER.split(c["expr"]), s1=s1, aliases=[[k, v] for k, v in aliases.items()],
+               added=added, env_ok=all(env[k] == env.get(v) for k, v in added))
+    if c["pre"]:
+        from formulaic.parser.algos.sanitize_tokens import sanitize_python_code
+
+        try:
+            out["fmt"] = [dict(k=s1, ok=format_expr(s1))]
+        except Exception as e:
+            out["fmt"] = [dict(k=s1, err=type(e).__name__)]
+        try:
+            out["final"] = {"ok": sanitize_python_code(c["expr"])}
+        except Exception as e:
+            out["final"] = {"error": _cls(e)}
+    else:
+        out["final"] = None
+    return out
+
+
+# templates whose model matrix is computed on a frame holding the quoted column: expected value of the column per row value v
+EVAL_TEMPLATES = {"`{}`": lambda v: v, "(`{}`)": lambda v: v, "f(`{}`)": lambda v: 2 * v, "{{`{}` + 1}}": lambda v: v + 1}
+EVAL_ROWS = [1.0, 2.0, 4.0]
+
+
+def impl_eval(s, name):
+    """the model matrix of the formula on a frame whose only column is the quoted name (f doubles its argument)"""
+    import pandas
+
+    from formulaic import Formula, model_matrix
+
+    out = {}
+    try:
+        out["required"] = sorted(str(v) for v in Formula(s).required_variables)
+    except Exception as e:
+        out["required"] = {"error": type(e).__name__}
+    try:
+        mm = model_matrix(s, pandas.DataFrame({name: EVAL_ROWS}), context={"f": lambda x: x * 2})
+        out["values"] = [[float(x) for x in row] for row in mm.values.tolist()]
+    except Exception as e:
+        out["values"] = {"error": type(e).__name__ + ": " + str(e)[:120]}
+    return out
+
+
+def _mk_token(t, src=None):
+    from formulaic.parser.types import Token
+
+    return Token(t[0], kind=None if t[1] == "none" else t[1], source=src, source_start=t[2], source_end=t[3])
+
+
+def impl_tokmeth(c):
+    if c["op"] == "tokinfo":
+        t = _mk_token(c["tok"], c["src"])
+        try:
+            f = t.to_factor()
+            fac = [f.expr, f.eval_method.value]
+        except Exception as e:
+            fac = {"error": type(e).__name__}
+        try:
+            terms = [pc.canon_term(x) for x in t.to_terms()]
+        except Exception as e:
+            terms = {"error": type(e).__name__}
+        rv = None if c["tok"][1] == "python" else sorted(str(v) for v in t.required_variables)
+        if c["tok"][1] == "python":
+            t.required_variables  # CPython's answer (also for malformed code: an empty set, never an exception)
+        return dict(ctx=t.get_source_context(), cctx=t.get_source_context(colorize=True), factor=fac, terms=terms, rv=rv)
+    if c["op"] == "split":
+        t = _mk_token(c["tok"], c.get("src"))
+        return [_tok4(x) for x in t.split(re.compile(re.escape(c["pat"])) if c.get("compiled") else re.escape(c["pat"]), after=c["after"], before=c["before"])]
+    a, b = _mk_token(c["a"]), _mk_token(c["b"])
+    return dict(eq=(a == b), eqstr=(a == b.token), lt=(a < b), samehash=(hash(a) == hash(b)), loc=list(a.source_loc),
+                other=[a.__eq__(1) is NotImplemented, a.__lt__("x") is NotImplemented, a.flatten() is a, a.flatten(str_args=True) == a.token, repr(a) == a.token])
+
+
 def impl(c):
-    out = dict(tok=pc.impl_tokenize(c["s"]))
+    if c["kind"] == "alias":
+        return impl_alias(c)
+    if c["kind"] == "tokmeth":
+        return impl_tokmeth(c)
+    out = impl_lex(c["s"])
     if c["kind"] in ("respace", "py"):
         out["f1"] = pc.impl_formula(c["s"], pc.CFG_DEFAULT)
         out["f2"] = pc.impl_formula(c["s2"], pc.CFG_DEFAULT)
+    if c["kind"] == "random":
+        out["f1"] = pc.impl_formula(c["s"], pc.CFG_DEFAULT)
     if c["kind"] == "name":
         out["f1"] = pc.impl_formula(c["s"], pc.CFG_DEFAULT)
+        if c["tmpl"] in EVAL_TEMPLATES:
+            out["eval"] = impl_eval(c["s"], c["name"])
     return out
 
 
 def request(c, o):
-    return pc.request_for(c["s"], "tokenize")
+    if c["kind"] == "alias":
+        names = [p[1:-1] for i, p in enumerate(o.get("parts", [])) if i % 2 == 1 and p.startswith("`")] if isinstance(o, dict) else []
+        import unicodedata
+
+        plain = [[n, bool(n.isidentifier() and unicodedata.normalize("NFKC", n) == n)] for n in sorted(set(names))]
+        r = dict(op="alias", expr=c["expr"], pre=c["pre"], env=c["env"], plain=plain, spchars=_space_chars(c["expr"]))
+        if c["pre"] and isinstance(o, dict) and "fmt" in o:
+            r["fmt"] = o["fmt"]
+        return r
+    if c["kind"] == "tokmeth":
+        return dict(c, op=c["op"])
+    w, sp = pc.char_flags(c["s"])
+    return dict(op="lex", s=c["s"], w=w, sp=sp, spchars=_space_chars(c["s"]), fmt=o.get("fmt", []) if isinstance(o, dict) else [])
+
+
+def _diff(a, b, path=""):
+    if type(a) != type(b):
+        return f"{path}: impl {a!r} vs model {b!r}"
+    if isinstance(a, dict):
+        for k in sorted(set(a) | set(b)):
+            if k not in a or k not in b:
+                return f"{path}.{k}: present on one side only"
+            d = _diff(a[k], b[k], path + "." + k)
+            if d:
+                return d
+        return None
+    if isinstance(a, list):
+        if len(a) != len(b):
+            return f"{path}: lengths {len(a)} vs {len(b)}: impl {a!r} vs model {b!r}"[:400]
+        for i, (x, y) in enumerate(zip(a, b)):
+            d = _diff(x, y, f"{path}[{i}]")
+            if d:
+                return d
+        return None
+    return None if a == b else f"{path}: impl {a!r} vs model {b!r}"[:400]
 
 
 def agree(c, o, m):
-    if "driver_error" in m:
+    if isinstance(m, dict) and "driver_error" in m:
         return "driver: " + m["driver_error"][:300]
-    t = o["tok"]
-    if "error" in t or "error" in m:
-        return None if t.get("error") == m.get("error") else f"impl {t.get('error', 'ok')} vs model {m.get('error', 'ok')}"
-    return None if t["tokens"] == m["tokens"] else "token lists differ"
+    if c["kind"] == "alias":
+        want = {k: o[k] for k in ("parts", "s1", "aliases", "added", "final")}
+        if not o["env_ok"]:
+            return "env[new_name] = env[name] was not carried out for every alias added to env"
+        if isinstance(m, dict) and isinstance(m.get("added"), list):  # the assignment is repeated for a repeated name: same effect
+            m = dict(m, added=[x for i, x in enumerate(m["added"]) if x not in m["added"][:i]])
+        return _diff(want, m)
+    if c["kind"] == "tokmeth":
+        if c["op"] in ("split", "tokinfo"):
+            return _diff(o, m)
+        if not all(o["other"]):
+            return f"Token.__eq__/__lt__/flatten/__repr__ conventions: {o['other']}"
+        return _diff({k: v for k, v in o.items() if k != "other"}, m)
+    return _diff(o["lex"], m)
 
 
 def _all_factors(v, acc):
@@ -181,11 +661,167 @@ def _odd_trailing_backslashes(name):
     return (len(name) - len(name.rstrip("\\"))) % 2 == 1
 
 
+def _scan_fragment(expr):
+    """independent reader of a Python fragment: [(kind, text)] with kind in text/str/name; None when a quote or a
+    back-quote is left open (the reader does not say what should happen then)"""
+    out, i, n, cur = [], 0, len(expr), []
+    while i < n:
+        ch = expr[i]
+        if ch in "'\"`":
+            j = i + 1
+            while j < n and expr[j] != ch:
+                j += 2 if expr[j] == "\\" else 1
+            if j >= n:
+                return None
+            if cur:
+                out.append(("text", "".join(cur)))
+                cur = []
+            out.append(("name", expr[i + 1:j]) if ch == "`" else ("str", expr[i:j + 1]))
+            i = j + 1
+        elif ch == "\\":
+            return None  # a backslash outside quotes is not Python
+        else:
+            cur.append(ch)
+            i += 1
+    if cur:
+        out.append(("text", "".join(cur)))
+    return out
+
+
+def oracle_alias(c, o):
+    import keyword
+    import unicodedata
+
+    expr = c["expr"]
+    if "".join(o["parts"]) != expr:
+        return f"the parts of the scan do not add up to the fragment: {o['parts']!r}"
+    aliases = o["aliases"]
+    news, olds = [a[0] for a in aliases], [a[1] for a in aliases]
+    if len(set(olds)) != len(olds):
+        return f"one name has two aliases: {aliases!r}"
+    for new, old in aliases:
+        if new == old and not c["pre"]:
+            if not new.isidentifier() or unicodedata.normalize("NFKC", new) != new:
+                return f"name {old!r} is used as it is but Python's parser would not read it back unchanged"
+            continue
+        if not new.isascii() or not new.isidentifier() or keyword.iskeyword(new):
+            return f"alias {new!r} of {old!r} is not an ASCII identifier"
+        if new in c["env"] and old not in c["env"]:
+            return f"alias {new!r} of {old!r} shadows a variable of the environment"
+    segs = _scan_fragment(expr)
+    if segs is not None:
+        names = [t for k, t in segs if k == "name"]
+        if sorted(set(names)) != sorted(set(olds)):
+            return f"back-quoted names {names!r} but aliases for {olds!r}"
+        amap = {old: new for new, old in aliases}
+        want = "".join((" " + amap[t] + " ") if k == "name" else t for k, t in segs).strip()
+        if o["s1"] != want:
+            return f"sanitised fragment {o['s1']!r} is not the fragment with each back-quoted name replaced by its alias ({want!r})"
+        words = {w for k, t in segs if k == "text" or (k == "str" and c["pre"]) for w in re.findall(r"[^\W\d]\w*", t)}
+        for new, old in aliases:
+            if new != old and new in words:
+                return f"alias {new!r} of {old!r} is also an identifier (or a word of a string literal) of the fragment itself"
+        if c["pre"] and o["final"] and "ok" in o["final"]:
+            f = o["fmt"][0]
+            if "ok" in f:
+                # restoration: what comes back is the formatted code with every alias replaced by its quoted name
+                pat = re.compile(r"\b(" + "|".join(re.escape(a) for a in sorted(news, key=len, reverse=True)) + r")\b") if news else None
+                back = pat.sub(lambda m: "`" + dict(aliases)[m.group(1)] + "`", f["ok"]) if pat else f["ok"]
+                if o["final"]["ok"] != back:
+                    return f"restoration: {o['final']['ok']!r} is not {f['ok']!r} with the aliases replaced by the quoted names ({back!r})"
+    return None
+
+
+def oracle_tokmeth(c, o):
+    if c["op"] == "tokinfo":
+        text, kind, a, b = c["tok"]
+        want = {"name": "lookup", "python": "python", "value": "literal"}.get(kind)
+        if want and o["factor"] != [text, want]:
+            return f"{kind} token {text!r} gives the factor {o['factor']!r}"
+        if not want and "error" not in o["factor"]:
+            return f"{kind} token {text!r} was turned into a factor: {o['factor']!r}"
+        if c["src"] and a is not None and "\u29db" not in c["src"]:
+            for ctx, colored in ((o["ctx"], False), (o["cctx"], True)):
+                if ctx is None:
+                    return "no source context although the token has a source and a span"
+                plain = re.sub("\x1b\\[[0-9;]*m", "", ctx) if colored else ctx
+                if plain.replace("\u29db", "", 1).replace("\u29da", "", 1) != c["src"]:
+                    return f"source context {ctx!r} is not the source {c['src']!r} with one span marked"
+        if kind == "name" and o["rv"] != [text]:
+            return f"name token {text!r} requires {o['rv']!r}"
+        return None
+    if c["op"] == "split":
+        text, kind, a, b = c["tok"]
+        if not c["after"] and not c["before"]:
+            return None if o == [c["tok"]] else f"split without after/before must give the token itself: {o!r}"
+        if "".join(p[0] for p in o) != text:
+            return f"the pieces of split do not add up to the token text {text!r}: {o!r}"
+        for p in o:
+            if p[1:] != [kind, a, b]:
+                return f"a piece of split lost the kind or the source span of its token: {p!r} from {c['tok']!r}"
+        if c["after"] and not c["before"]:
+            for p in o[:-1]:
+                if not p[0].endswith(c["pat"]):
+                    return f"split(after=True): piece {p[0]!r} does not end with the separator {c['pat']!r}"
+            if any(c["pat"] in p[0][:-len(c["pat"])] for p in o):
+                return f"split(after=True): a piece still holds a separator inside: {o!r}"
+        return None
+    if o["eq"] and not o["samehash"]:
+        return "equal tokens with different hashes"
+    if o["eq"] != (c["a"][0] == c["b"][0] and c["a"][1] == c["b"][1]):
+        return "Token equality is not equality of text and kind"
+    if o["loc"] != c["a"][2:]:
+        return "source_loc is not (source_start, source_end)"
+    return None
+
+
+def _context_check(s, a, b, ctx, colored):
+    """`ctx` must be the source with the span a..b put between the two markers (and nothing else changed)"""
+    if ctx is None:
+        return None if (not s or a is None or b is None) else "no source context although the token has a span"
+    if colored:
+        ctx = re.sub("\x1b\\[[0-9;]*m", "", ctx)
+    if ctx.count("\u29db") < 1 or ctx.count("\u29da") < 1:
+        return f"source context {ctx!r} lacks the span markers"
+    i = ctx.index("\u29db")
+    j = ctx.index("\u29da", i)
+    pre, mid, post = ctx[:i], ctx[i + 1:j], ctx[j + 1:]
+    if pre + mid + post != s:
+        return f"source context {ctx!r} is not the source {s!r} with markers inserted"
+    if (len(pre), len(pre) + len(mid) - 1) != (a, b):
+        return f"source context {ctx!r} highlights {len(pre)}..{len(pre) + len(mid) - 1}, the token's span is {a}..{b}"
+    return None
+
+
 def oracle(c, o):
     if "harness_exception" in o:
         return "harness failure: " + o["harness_exception"]
+    if c["kind"] == "alias":
+        return oracle_alias(c, o)
+    if c["kind"] == "tokmeth":
+        return oracle_tokmeth(c, o)
     tok = o["tok"]
     s = c["s"]
+    for t in o["lex"]["tokens"]:
+        text, kind, a, b = t["tok"]
+        if "\u29db" in s or "\u29da" in s:
+            break
+        for ctx, colored in ((t["ctx"], False), (t["cctx"], True)):
+            why = _context_check(s, a, b, ctx, colored)
+            if why:
+                return f"token {text!r}: " + why
+        want = {"name": "lookup", "python": "python", "value": "literal"}.get(kind)
+        if want and t["factor"] != [text, want]:
+            return f"{kind} token {text!r} gives the factor {t['factor']!r}, not [{text!r}, {want!r}]"
+        if want and t["terms"] != [[[text, want]]]:
+            return f"{kind} token {text!r} gives the terms {t['terms']!r}"
+        if not want and "error" not in t["factor"]:
+            return f"{kind} token {text!r} was turned into a factor: {t['factor']!r}"
+    if o.get("err_msg") and "\n\n" in o["err_msg"] and "\u29db" not in s and "\u29da" not in s:
+        ctx = re.sub("\x1b\\[[0-9;]*m", "", o["err_msg"].split("\n\n", 1)[1])
+        if "\u29db" in ctx and "\u29da" in ctx:
+            if ctx.replace("\u29db", "", 1).replace("\u29da", "", 1) != s:
+                return f"the source context of the error message, {ctx!r}, is not the formula with one span marked"
     # spans: ordered, non-overlapping, delimit the text
     if "tokens" in tok:
         prev = -1
@@ -200,6 +836,9 @@ def oracle(c, o):
                 continue
             if src != text:
                 return f"span ({a},{b}) = {src!r} does not delimit token text {text!r}"
+    # (a Python fragment that was lexed before the point of failure may be reported first: SyntaxError)
+    if c["kind"] == "random" and "error" in tok and o["f1"].get("error") not in (tok["error"], "SyntaxError"):
+        return f"tokenize({s!r}) fails with {tok['error']} but Formula({s!r}) gives {o['f1']}"
     if c["kind"] == "respace":
         if o["f1"] != o["f2"]:
             return f"re-spacing changed the parsed formula: {c['s']!r} -> {o['f1']} vs {c['s2']!r} -> {o['f2']}"
@@ -219,29 +858,34 @@ def oracle(c, o):
             py = [t for t in tok["tokens"] if t[1] == "python"]
             if len(py) != 1 or ("`" + name + "`") not in py[0][0]:
                 return f"fragment containing quoted name {name!r} not taken verbatim: {[(t[0], t[1]) for t in tok['tokens']]}"
+        if "eval" in o and name != "1":
+            ev = o["eval"]
+            want = [[1.0, EVAL_TEMPLATES[c["tmpl"]](v)] for v in EVAL_ROWS]
+            if ev["values"] != want:
+                return f"the column named {name!r} cannot be referenced: model_matrix({s!r}) on a frame with that column gives {ev['values']!r}, expected {want!r}"
+            from formulaic.transforms import TRANSFORMS
+
+            # (a column named like a transform is left out of required_variables: known finding C17-F1, not C15's)
+            if ev["required"] != [name] and name.split(".", 1)[0] not in TRANSFORMS:
+                return f"the column named {name!r} is referenced by {s!r} but required_variables is {ev['required']!r}"
     if c["kind"] == "py":
+        frags = c["frags"]
         if "error" in tok:
-            return f"Python fragment {c['frag']!r} not lexed: {tok['error']}"
-        py = [t for t in tok["tokens"] if t[1] == "python"]
-        want = c["frag"]
-        if len(py) != 1 or py[0][0] != want:
-            return f"Python fragment not taken verbatim: want {want!r}, tokens {[(t[0], t[1]) for t in tok['tokens']]}"
+            return f"Python fragments {[f[0] for f in frags]!r} not lexed: {tok['error']}"
+        py = [t[0] for t in tok["tokens"] if t[1] == "python"]
+        if py != [f[0] for f in frags]:
+            return f"Python fragments not taken verbatim, one token each: want {[f[0] for f in frags]!r}, tokens {[(t[0], t[1]) for t in tok['tokens']]}"
         if o["f1"] != o["f2"]:
             return f"fragments differing only in formatting denote different formulas: {c['s']!r} -> {o['f1']} vs {c['s2']!r} -> {o['f2']}"
         if "error" in o["f1"]:
             return f"valid Python fragment rejected: {o['f1']}"
-        want_ast = _frag_ast(c["frag"])
-        if want_ast is not None:
-            got = [f[0] for f in _all_factors(o["f1"]["formula"], []) if f[1] == "python"]
-            if len(got) != 1:
-                return f"expected exactly one Python factor for {c['s']!r}, got {got}"
-            expr = got[0]
-            if c["form"] == "brace":
-                want_ast = _frag_ast("(" + c["frag"] + ")")
-                expr = "(" + expr + ")"
-            if _frag_ast(expr) != want_ast:
-                return (f"the factor {got[0]!r} is not the Python expression written as {c['frag']!r} "
-                        f"(same code over the same back-quoted names)")
+        want = [_frag_ast("(" + f + ")") for f, _ in frags]
+        if all(w is not None for w in want):
+            got = sorted({f[0] for f in _all_factors(o["f1"]["formula"], []) if f[1] == "python"})
+            got_ast = [_frag_ast("(" + g + ")") for g in got]
+            if sorted(set(want)) != sorted(set(a for a in got_ast if a is not None)) or None in got_ast:
+                return (f"the Python factors {got!r} are not the Python expressions written as {[f[0] for f in frags]!r} "
+                        f"(one factor per fragment, same code over the same back-quoted names)")
     return None
 
 
@@ -260,8 +904,10 @@ def _frag_ast(frag):
             out.append(frag[i:j + 1])
             i = j + 1
         elif ch == "`":
-            j = frag.find("`", i + 1)
-            if j < 0:
+            j = i + 1  # as the formula tokenizer reads a quoted name: a backslash takes the next character with it
+            while j < n and frag[j] != "`":
+                j += 2 if frag[j] == "\\" else 1
+            if j >= n:
                 return None
             names.append(frag[i + 1:j])
             out.append(f" __bt{len(names) - 1}__ ")
@@ -269,8 +915,6 @@ def _frag_ast(frag):
         else:
             out.append(ch)
             i += 1
-    if any(q in nm for nm in names for q in "'\""):
-        return None  # quote characters inside a quoted name: known finding C15-F3 territory
     try:
         tree = _ast.parse("".join(out).strip(), mode="eval")
     except SyntaxError:
@@ -290,20 +934,46 @@ def classify(c, o, why):
         return "C15-F1"
     if c["kind"] == "name" and c["name"] == "1" and "no lookup factor" in str(why):
         return "C15-F2"
-    if c["kind"] == "py":
-        import re as _re
-
-        for frag in (c["frag"], c["frag2"]):
-            for nm in _re.findall(r"`([^`]*)`", frag):
-                for q in "'\"":
-                    if q in nm and frag.count(q) >= 2:
-                        return "C15-F3"
+    if c["kind"] == "py" and any(w in str(why) for w in ("not lexed", "rejected", "not taken verbatim")):
+        for frag, _ in c["frags"]:
+            for q1 in QUOTES:
+                parts = frag.split(q1 * 3)
+                # an odd number of single quote characters of its own kind inside a triple-quoted literal
+                if any(parts[i].count(q1) % 2 == 1 for i in range(1, len(parts), 2)):
+                    return "C15-F4"
     return None
 
 
 LEVEL_TEXT = (
-    'Proof (the lexer clauses in full; the CPython normal form by oracle): Lean theorems about the executable model of tokenize() show for ALL bodies (any characters of any class except backtick/backslash) that a backtick-quoted name is one name token with the body verbatim and the documented span, that unquoted whitespace is a no-op after an operator/between tokens and otherwise only ends the pending token, and that for EVERY string that tokenises all spans lie inside the string, are ordered and do not overlap (loop invariant). Whole-string whitespace insensitivity IS a theorem (ws_insensitive: one unquoted whitespace character inserted at any point where no quote is open and the pending token is empty or an operator changes no token text/kind and no accept/reject outcome; positions never influence texts/kinds). Also theorems for EVERY string: span_delimits_text (the text of each token is a subsequence of the source characters inside its span, ends with the character at its stop and starts at its start, or just after the quote character that opened it; the only characters skipped are the opening quote and whitespace inside an operator run), tokens_have_kinds (every emitted token has a kind and a non-empty text), and quoted_verbatim/brace_verbatim (a brace-, backtick- or percent-quoted body that leaves the quote stack as it found it is ONE token with the body verbatim; the stack discipline is a small executable function of the body). Call-style fragments are theorems as well: a name (word characters, not all digits/dots, dotted names included) directly followed by any chain of balanced ( ) / [ ] groups is ONE python token with the whole fragment verbatim, alone, after any prefix and before any follower that is not an opening bracket or a quote (call_verbatim, call_chain_verbatim, dotted_call_verbatim, call_at_end, call_then); and token_text_exact determines the text of EVERY token of EVERY string from its span and kind (contiguous slice; slice after the opening quote character; for an operator run the slice with whitespace removed). Only the reformatting-invariance of Python fragments (ast.parse/unparse of CPython) is NOT a theorem: it is covered by the correspondence of the model against the real tokenizer (texts, kinds and spans) and by oracles on the real code (same formula for two formattings; the normalised factor is the same Python expression over the same back-quoted names).'
+    'Proof (every clause but CPython\'s own normal form): Lean theorems about the executable models of tokenize()/Token, of the parser '
+    'pipeline and of utils/code.py, all run against the real functions on every check. LEXER, for ALL strings: a backtick-quoted body '
+    '(any characters except backtick/backslash) is ONE name token with the body verbatim; brace-, backtick- and percent-quoted bodies and '
+    'call-style fragments name(...)[...] (dotted names, chains, in any context) that leave the quote stack as they found it are ONE token '
+    'with the text verbatim (quoted_verbatim, brace_verbatim, call_verbatim, call_chain_verbatim, dotted_call_verbatim, call_at_end, '
+    'call_then); spans lie inside the string, are ordered and disjoint (spans_ordered); the span and kind determine the text exactly '
+    '(token_text_exact, span_delimits_text); every token has a kind and a non-empty text (tokens_have_kinds). WHITESPACE: one unquoted '
+    'whitespace character inserted where no quote is open and the pending token is empty or an operator changes no token text/kind '
+    '(ws_insensitive, positions_irrelevant) and — new — does not change the PARSED FORMULA: no stage after the tokenizer (sanitisation, '
+    '0/~/|/intercept rewrites, sign merging, shunting yard, evaluation, Formula ordering) reads a span, so Formula(s) and get_terms(s) are '
+    'equal for the two strings, or both rejected with the same exception class (ws_insensitive_formula, formula_ignores_spans), and the '
+    'same for any number of insertions and removals (respacing_keeps_formula). PYTHON FRAGMENTS — new, model Model/PyAlias.lean of '
+    'UNQUOTED_BACKTICK_MATCHER.split / sanitize_variable_name(s) / sanitize_python_code: the scan is a partition of the fragment into '
+    'alternating text/match parts (alias_scan_partition); every alias is an ASCII identifier that is not a keyword, not a word of the '
+    'code, not in use for another name (alias_is_identifier); the suffix loop terminates (alias_loop_terminates, pigeonhole); no name '
+    'has two aliases (alias_unique_per_name); the '
+    'sanitised text is the fragment with each back-quoted name replaced by an alias the FINAL table maps back to it '
+    '(alias_table_faithful); the restoration undoes the alias pass for EVERY fragment — quotes in names, look-alike identifiers and '
+    'strings, unterminated quotes included (restore_roundtrip), so a fragment format_expr leaves alone is its own normal form '
+    '(normal_form_of_formatted). TOKEN METHODS — new: kind -> eval-method table read from the live class (kind_to_factor, '
+    'leaf_factor_agrees), get_source_context marks exactly the span, plain and colorized (source_context_marks_span), Token.split cuts '
+    'the text and keeps kind and span (split_keeps_text_and_span). NOT a theorem: that CPython\'s ast.unparse(ast.parse(.)) maps two '
+    'formattings of one expression to one text and leaves identifiers whole; it is the one external parameter (format_expr of the '
+    'sanitised fragment), covered by the correspondence and by the oracle "same Python AST over the same back-quoted names" on generated '
+    'reformattings (spacing, parentheses, quote style, keywords touching names).'
 )
 LEVEL_NOTE = (
-    "Trusted: Lean kernel + the three standard axioms; the hand model of tokenize()/Token validated token-by-token incl. spans on every run; Python's re classes enter as data; ast.unparse is CPython's."
+    "Trusted: Lean kernel + the three standard axioms; the hand models of tokenize()/Token/utils.code validated on every run (tokens "
+    "incl. spans and contexts, alias tables, sanitised and restored texts); Python's re classes \\w, \\s, str.isspace/isidentifier/"
+    "NFKC enter as data; ast.parse/ast.unparse are CPython's. Findings C15-F1 (name ending in a backslash) and C15-F2 (column named 1) "
+    "stay open; C15-F3 is repaired."
 )
